@@ -407,6 +407,20 @@ Definition send_guard (s : send) : bool :=
   | SRaw _ => false
   end.
 
+(* ---------- sessions: which sends belong to which writer ---------- *)
+(* A session is: sends before any transport exists, then for each set_writer the sends made while
+   that writer is installed.  The sends of the first part reach no writer, ever; the sends of a later
+   part reach exactly that writer, in its framing mode. *)
+Fixpoint seg {W} (ops : list (sop W)) : list send * list (W * bool * list send) :=
+  match ops with
+  | [] => ([], [])
+  | OSend s :: r => let '(ss0, segs) := seg r in (s :: ss0, segs)
+  | OSetWriter w h :: r => let '(ss0, segs) := seg r in ([], (w, h, ss0) :: segs)
+  end.
+Definition unseg {W} (ss0 : list send) (segs : list (W * bool * list send)) : list (sop W) :=
+  map OSend ss0 ++
+  flat_map (fun g => OSetWriter (fst (fst g)) (snd (fst g)) :: map OSend (snd g)) segs.
+
 (* ---------- schedules ---------- *)
 (* interleave qs out: `out` is obtained by repeatedly letting some sender perform its next
    operation, until every sender is done (any scheduler, any number of senders). *)
